@@ -2,6 +2,7 @@ import H8.Drv.Cost
 import H8.Drv.Bus
 import H8.Drv.Step
 import H8.Drv.Elf
+import H8.Drv.Run
 open H8.Drv
 
 def handle (line : String) : String :=
@@ -12,6 +13,7 @@ def handle (line : String) : String :=
   | ["bus17", ops] => bus17Line ops
   | "sweep09" :: rest => sweep09Line rest
   | "step" :: rest => stepLine rest
+  | "run" :: rest => runLine rest
   | _ => "bad-case"
 
 partial def loop (hin : IO.FS.Stream) (hout : IO.FS.Stream) : IO Unit := do
